@@ -197,8 +197,10 @@ Definition pred_ok (c : case) : bool :=
              dropped, none of the dropped labels, sorted unique names *)
           forallb (fun l =>
               forallb (fun d => negb (lhas l d)) drop && names_sorted l
+              (* ... of a block whose external labels the selectors do not contradict *)
               && existsb (fun b => forallb (fun p => existsb (str_eqb (fst p)) drop || is_empty_str (snd p)
-                                                     || str_eqb (lget l (fst p)) (snd p)) (fst b)) blocks) ols
+                                                     || str_eqb (lget l (fst p)) (snd p)) (fst b)
+                                   && match ext_loop mname mmatch ms (fst b) with Some _ => true | None => false end) blocks) ols
       end
   | CNop => true
   end.
